@@ -1534,3 +1534,11 @@ package analysis
 //@   ensures !nameTaken(definitions, result)
 //@   ensures result1 <==> (name == "" || nameTaken(definitions, name))
 //@   ensures !result1 ==> result == name
+//@   loop 1: invariant known <==> nameTaken(definitions, unique)
+//@   loop 1: invariant isOAIGen && nameTaken(definitions, old(name))
+
+//@ func nameExists(definitions, name)
+//@   modifies nothing
+//@   ensures result <==> nameTaken(definitions, name)
+//@   loop 1: invariant forall k in seen :: !strings.EqualFold(k, name)
+//@   loop 1: invariant forall k in seen :: k in dom(definitions)
